@@ -9,6 +9,9 @@ from .misc import (
     comma_wb_lookbehind,
 )
 
+# Note on the e/w group of all patterns in this module: it may not run
+# into a following word or aliquot ('R97, Excepting ...', 'R97 E/2'),
+# hence the negative lookahead behind it.
 twprge_regex = re.compile(
     r"""
     ((?<=[,;:])|(?<=\b))    # Word boundary or comma (or similar) lookbehind.
@@ -45,7 +48,7 @@ twprge_regex = re.compile(
     ))
     
     [\.\-–—,\s]*            # Deadspace between rgenum and e/w.
-    (?P<ew>W[est]{0,3}|E[ast]{0,3})    # e/w.
+    (?P<ew>(?:W[est]{0,3}|E[ast]{0,3})(?![A-Za-z/½]))    # e/w.
     """, re.IGNORECASE | re.VERBOSE)
 
 
@@ -92,7 +95,7 @@ pp_twprge_no_nswe = re.compile(
     [\.\-–—,\s]*            # Deadspace between "Range" and rgenum.
     (?P<rgenum>\d{1,3})     # rgenum
     [\.\-–—,\s]*            # Deadspace between rgenum and e/w.
-    (?P<ew>W[est]{0,3}|E[ast]{0,3})?        # e/w (optional)
+    (?P<ew>(?:W[est]{0,3}|E[ast]{0,3})(?![A-Za-z/½]))?        # e/w (optional)
     """, re.IGNORECASE | re.VERBOSE)
 
 
@@ -124,7 +127,7 @@ pp_twprge_no_nsr = re.compile(
     [\.\-–—,\s]*            # Deadspace between "Range" and rgenum.
     (?P<rgenum>\d{1,3})     # rgenum
     [\.\-–—,\s]*            # Deadspace between rgenum and e/w
-    (?P<ew>W[est]{0,3}|E[ast]{0,3})         # e/w (required)
+    (?P<ew>(?:W[est]{0,3}|E[ast]{0,3})(?![A-Za-z/½]))         # e/w (required)
     """, re.IGNORECASE | re.VERBOSE)
 
 
@@ -157,7 +160,7 @@ pp_twprge_no_ewt = re.compile(
     [\.\-–—,\s]*            # Deadspace between "Range" and rgenum.
     (?P<rgenum>\d{1,3})     # rgenum
     [\.\-–—,\s]*            # Deadspace between rgenum and e/w
-    (?P<ew>W[est]{0,3}|E[ast]{0,3})?    # e/w (optional).
+    (?P<ew>(?:W[est]{0,3}|E[ast]{0,3})(?![A-Za-z/½]))?    # e/w (optional).
     """, re.IGNORECASE | re.VERBOSE)
 
 
@@ -199,7 +202,7 @@ pp_twprge_ocr_scrub = re.compile(
     (?P<rgenum>[0-9SOIl\]\|]{2,3}|[013-9SOIl\]\|]) # (Note that singular '2' not allowed).
     
     [\.\-–—,\s]*            # Deadspace between rgenum and e/w. 
-    (?P<ew>W[est]{0,3}|E[ast]{0,3})     # e/w (required).
+    (?P<ew>(?:W[est]{0,3}|E[ast]{0,3})(?![A-Za-z/½]))     # e/w (required).
     """,
     re.IGNORECASE | re.VERBOSE)
 
